@@ -1,8 +1,9 @@
-(* C04 — two broken variants of the timeout handler, each refuted by a concrete
-   schedule evaluated with vm_compute.  They are the model counterparts of the
-   mutations used in the self-test (notes/C04.md): they document that the
-   theorems of Props.v depend on the buffering and on the timedOut flag, and are
-   not artefacts of the statement. *)
+(* C04 — broken variants of the timeout handler, each refuted by a concrete
+   schedule evaluated with vm_compute.  They are the model counterparts of code
+   changes seen in the self-tests and the seeded changes (notes/C04.md): they document
+   that the theorems of Props.v depend on the buffering, on the timedOut flag, on the
+   locked / guarded Flush and on 1xx codes not being forwarded, and are not artefacts
+   of the statement. *)
 From Coq Require Import List ZArith Bool.
 From GZ Require Import C04.Model.
 Import ListNotations.
@@ -12,7 +13,7 @@ Open Scope Z_scope.
 Definition wt_step (s : state) (e : ev) : state :=
   match e, hst s, hrest s with
   | EH, HRun, AWrite bs :: r =>
-    mkSt (tb s) (tto s) (rw_write bs (rw s)) HRun r (hexec s ++ [AWrite bs]) (dk s) (sst s)
+    mkSt (tb s) (tto s) (rw_write bs (rw s)) HRun r (hexec s ++ [AWrite bs]) (dk s) (sst s) (sexec s)
   | _, _, _ => stepT s e
   end.
 
@@ -22,16 +23,17 @@ Definition wt_run (s : state) (sched : list ev) : state := fold_left wt_step sch
    implicit 200, and the second chunk follows it *)
 Theorem write_through_refuted :
   exists script sched k,
-    sst (wt_run (init [] script) sched) = STimeoutRet k /\
-    rw (wt_run (init [] script) sched) <> timeout_resp [] k.
+    has_flush script = false /\
+    sst (wt_run (init true [] script) sched) = STimeoutRet k /\
+    rw (wt_run (init true [] script) sched) <> timeout_resp true [] k.
 Proof.
   exists [AWrite [200]; AWrite [201]], [EH; ED KCancel; ES BTimeout; EH], KCancel.
-  vm_compute. split; [reflexivity|discriminate].
+  vm_compute. split; [reflexivity|]. split; [reflexivity|discriminate].
 Qed.
 
 Example write_through_mixture :
-  rw (wt_run (init [] [AWrite [200]; AWrite [201]]) [EH; ED KCancel; ES BTimeout; EH]) =
-  mkRW [] (Some (200, [])) ([200] ++ reason ++ [201]).
+  rw (wt_run (init true [] [AWrite [200]; AWrite [201]]) [EH; ED KCancel; ES BTimeout; EH]) =
+  mkRW true [] (Some (200, [])) ([200] ++ reason ++ [201]) [].
 Proof. vm_compute. reflexivity. Qed.
 
 (* (2) the timeout branch flushes what is buffered before writing the reply
@@ -40,7 +42,7 @@ Definition pb_step (s : state) (e : ev) : state :=
   match e, sst s, dk s with
   | ES BTimeout, SWait, Some k =>
     mkSt (tb s) true (timeout_write k (rw_write (bbody (tb s)) (rw s)))
-         (hst s) (hrest s) (hexec s) (dk s) (STimeoutRet k)
+         (hst s) (hrest s) (hexec s) (dk s) (STimeoutRet k) (hexec s)
   | _, _, _ => stepT s e
   end.
 
@@ -48,9 +50,110 @@ Definition pb_run (s : state) (sched : list ev) : state := fold_left pb_step sch
 
 Theorem partial_body_refuted :
   exists script sched k,
-    sst (pb_run (init [] script) sched) = STimeoutRet k /\
-    rw (pb_run (init [] script) sched) <> timeout_resp [] k.
+    has_flush script = false /\
+    sst (pb_run (init true [] script) sched) = STimeoutRet k /\
+    rw (pb_run (init true [] script) sched) <> timeout_resp true [] k.
 Proof.
   exists [AWriteHeader 201; AWrite [200]; AWrite [201]], [EH; EH; ED KDeadline; ES BTimeout], KDeadline.
+  vm_compute. split; [reflexivity|]. split; [reflexivity|discriminate].
+Qed.
+
+(* (3) timeoutWriter.Flush as it was before 696f32f (finding F23): no lock, no look at
+   timedOut, the recorded status never sent: headers copied, buffered bytes written *)
+Definition old_flush (b : tbuf) (w : rwriter) : tbuf * rwriter :=
+  if negb (rfl w) then (b, w)
+  else (mkBuf (bh b) [] (bcode b) (bwrote b) (bfl b),
+        rw_write (bbody b) (rw_hdr (fun d => overlay d (bh b)) w)).
+
+Definition of_step (s : state) (e : ev) : state :=
+  match e, hst s, hrest s with
+  | EH, HRun, AFlush :: r =>
+    let '(b', w') := old_flush (tb s) (rw s) in
+    mkSt b' (tto s) w' HRun r (hexec s ++ [AFlush]) (dk s) (sst s) (sexec s)
+  | _, _, _ => stepT s e
+  end.
+
+Definition of_run (s : state) (sched : list ev) : state := fold_left of_step sched s.
+
+(* the response is final once ServeHTTP has returned through the timeout branch
+   (Props.nothing_after_timeout) — not with the old Flush: the bytes buffered before the
+   timeout and the handler's headers follow the 499 reply *)
+Theorem unguarded_flush_refuted :
+  exists script sched1 sched2 k,
+    sst (of_run (init true [] script) sched1) = STimeoutRet k /\
+    rw (of_run (init true [] script) (sched1 ++ sched2)) <> rw (of_run (init true [] script) sched1).
+Proof.
+  exists [ASet 1 7; AWrite [200]; AFlush], [EH; EH; ED KCancel; ES BTimeout], [EH], KCancel.
   vm_compute. split; [reflexivity|discriminate].
 Qed.
+
+Example unguarded_flush_mixture :
+  rw (of_run (init true [] [ASet 1 7; AWrite [200]; AFlush]) [EH; EH; ED KCancel; ES BTimeout; EH]) =
+  mkRW true [(1, [7])] (Some (499, [])) (reason ++ [200]) [].
+Proof. vm_compute. reflexivity. Qed.
+
+(* ... and without any timeout the status the handler set is lost (200 instead of 404),
+   against Props.no_deadline_complete_flush *)
+Theorem old_flush_loses_status_refuted :
+  exists script sched,
+    spec_panic true false script = None /\ info_first true script = false /\
+    sst (of_run (init true [] script) sched) = SDoneRet /\
+    rw_view (rw (of_run (init true [] script) sched)) <> spec_view true [] script.
+Proof.
+  exists [AWriteHeader 404; AWrite [200]; AFlush], [EH; EH; EH; EH; ES BDone].
+  vm_compute. repeat split; discriminate.
+Qed.
+
+(* (4) seeded change C04-3: WriteHeader(1xx) is forwarded to the real writer at once,
+   after the handler's headers so far were copied into the real header map *)
+Definition is_1xx (c : Z) : bool := (100 <=? c) && (c <? 200) && negb (c =? 101).
+
+Definition if_step (s : state) (e : ev) : state :=
+  match e, hst s, hrest s with
+  | EH, HRun, AWriteHeader c :: r =>
+    if is_1xx c then
+      let w' := if tto s || bwrote (tb s) then rw s
+                else rw_wh c (rw_hdr (fun d => overlay d (bh (tb s))) (rw s)) in
+      mkSt (tb s) (tto s) w' HRun r (hexec s ++ [AWriteHeader c]) (dk s) (sst s) (sexec s)
+    else stepT s e
+  | _, _, _ => stepT s e
+  end.
+
+Definition if_run (s : state) (sched : list ev) : state := fold_left if_step sched s.
+
+(* the 503 carries the handler's header, and a 103 went out for work whose outcome is
+   "timeout": not the timeout reply of Props.all_or_nothing *)
+Theorem informational_passthrough_refuted :
+  exists script sched k,
+    has_flush script = false /\
+    sst (if_run (init true [] script) sched) = STimeoutRet k /\
+    rw (if_run (init true [] script) sched) <> timeout_resp true [] k.
+Proof.
+  exists [ASet 1 7; AWriteHeader 103], [EH; EH; ED KDeadline; ES BTimeout], KDeadline.
+  vm_compute. split; [reflexivity|]. split; [reflexivity|discriminate].
+Qed.
+
+Example informational_passthrough_mixture :
+  rw (if_run (init true [] [ASet 1 7; AWriteHeader 103]) [EH; EH; ED KDeadline; ES BTimeout]) =
+  mkRW true [(1, [7])] (Some (503, [(1, [7])])) reason [(103, [(1, [7])])].
+Proof. vm_compute. reflexivity. Qed.
+
+(* (5) known finding C04-informational-status, in the model of TODAY's code: a 1xx code
+   written first is recorded as the status; the client gets it at completion and then an
+   implicit 200 instead of the handler's 404.  This is why Props.complete_is_spec and
+   complete_is_spec_view carry the hypothesis info_first = false. *)
+Theorem informational_status_refuted :
+  exists fl h0 acts,
+    spec_panic fl false acts = None /\ info_first fl acts = true /\
+    rw_view (complete fl h0 acts) <> spec_view fl h0 acts.
+Proof.
+  exists false, [], [AWriteHeader 103; AWriteHeader 404; AWrite [200]].
+  vm_compute. repeat split; discriminate.
+Qed.
+
+Example informational_status_today :
+  rw_view (complete false [] [AWriteHeader 103; AWriteHeader 404; AWrite [200]]) =
+    ([(103, [])], Some (200, []), [200]) /\
+  spec_view false [] [AWriteHeader 103; AWriteHeader 404; AWrite [200]] =
+    ([(103, [])], Some (404, []), [200]).
+Proof. vm_compute. split; reflexivity. Qed.
